@@ -13,6 +13,8 @@ import (
 	"go/constant"
 	"go/token"
 	"go/types"
+	"os"
+	"regexp"
 	"sort"
 	"strconv"
 	"strings"
@@ -284,12 +286,10 @@ func (x *c50cx) term(e ast.Expr) string {
 		if x.isNil(v) {
 			return "nil"
 		}
-		if o, ok := x.info.Uses[v].(*types.Var); ok {
+		o, _ := x.info.Uses[v].(*types.Var)
+		if o != nil {
 			if nt := c50namedOf(o.Type()); nt != nil && (nt == x.m.intoT || nt == x.m.loadT) {
 				return "%"
-			}
-			if x.isASTType(o.Type()) {
-				return "$"
 			}
 		}
 		if d := x.def(v); d != nil {
@@ -297,6 +297,9 @@ func (x *c50cx) term(e ast.Expr) string {
 			s := x.term(d)
 			x.depth--
 			return s
+		}
+		if o != nil && x.isASTType(o.Type()) {
+			return "$" // the statement (or a part of it that is not a plain alias of a path)
 		}
 		return v.Name
 	case *ast.SelectorExpr:
@@ -928,7 +931,7 @@ func c50showParts(ps []c50Part) string {
 
 // ---- the rules ------------------------------------------------------------------------------------------------
 
-type c50Floors struct{ o1, o2, o3, o4, o5 int }
+type c50Floors struct{ o1, o2, o3, o4, o5, o6 int }
 
 func runC50Opts(c *Ctx, nm c50Names, fl c50Floors) {
 	if c.fixtureMode {
@@ -939,6 +942,7 @@ func runC50Opts(c *Ctx, nm c50Names, fl c50Floors) {
 	c.Rule("C50-O3", "NULL representation: what the writer emits for a nil value with escaping disabled / enabled is what the reader maps to NULL (word compared against the field; escape letter whose arm produces such a word)", fl.o3)
 	c.Rule("C50-O4", "per option value that the planbuilder rejects for "+nm.loadType+": the same canonical condition is rejected for "+nm.intoType+" (a file cannot be written with options that the reader refuses)", fl.o4)
 	c.Rule("C50-O5", "per executor function and option with a non-empty default: the default delimiter is not hard-coded (no comparison/search of input data against, and no emission of, the literal default instead of the option)", fl.o5)
+	c.Rule("C50-O6", "every "+nm.intoCtor+" call that names an output file and every "+nm.loadCtor+" call is followed, in the same planbuilder function, by the statement overrides of every option on the new node; literals of the two node types occur only in their constructors (copies keep the options)", fl.o6)
 	m := c50newModel(c, nm)
 	if m == nil || len(m.opts) == 0 {
 		c.Undecided("C50-O1", "model", 0, "plan node types, constructors or shared options not found")
@@ -946,6 +950,7 @@ func runC50Opts(c *Ctx, nm c50Names, fl c50Floors) {
 	}
 	m.ruleO1O4()
 	m.ruleO2()
+	m.ruleO6()
 	w, readers := m.execFuncs()
 	if w == nil || len(readers) == 0 {
 		c.Undecided("C50-O3", "executors", 0, "writer function or reader functions not found in "+nm.execRel)
@@ -1098,6 +1103,9 @@ func (m *c50o) ruleO1O4() {
 			pos = a[0].pos
 		}
 		ra, rb := render(a), render(b)
+		if os.Getenv("C50DEBUG") != "" {
+			fmt.Printf("O1 %s\n   into: %s\n   load: %s\n", opt, ra, rb)
+		}
 		c.Check(ra == rb, "C50-O1", opt, pos, ra,
 			fmt.Sprintf("option %s: %s overrides it as [%s] but %s as [%s]: the same FIELDS/LINES clause leaves the writer and the reader with different values (default %s)",
 				opt, m.nm.intoType, ra, m.nm.loadType, rb, c50constStr(m.defaults[opt])))
@@ -1294,10 +1302,48 @@ func (m *c50o) isEscTerm(t string) bool {
 	return false
 }
 
+// optionOnly: the literal only talks about options (plan-node options, carrier fields, constants).
+func (m *c50o) optionOnly(s string) bool {
+	for _, t := range c50reOptTerm.FindAllString(s, -1) {
+		if t[0] == '@' || !m.isOpt[t[2:]] {
+			return false // a carrier that is not rewritten, or a node field that is not a format option
+		}
+	}
+	rest := c50reOptTerm.ReplaceAllString(s, "")
+	rest = strings.NewReplacer("len(", "(", "set(", "(").Replace(rest)
+	rest = c50reQuoted.ReplaceAllString(rest, "")
+	for _, r := range rest {
+		if r == '_' || (r >= 'a' && r <= 'z') || (r >= 'A' && r <= 'Z') {
+			return false
+		}
+	}
+	return true
+}
+
+var (
+	c50reOptTerm = regexp.MustCompile(`[@%]\.[A-Za-z_0-9]+`)
+	c50reQuoted  = regexp.MustCompile(`"(?:[^"\\]|\\.)*"`)
+)
+
+// toOptions rewrites carrier terms (@.field) into the option they carry (%.Option).
+func (m *c50o) toOptions(s string) string {
+	return c50reOptTerm.ReplaceAllStringFunc(s, func(t string) string {
+		if t[0] != '@' {
+			return t
+		}
+		for k, o := range m.carriers {
+			if strings.HasSuffix(k, "."+t[2:]) {
+				return "%." + o
+			}
+		}
+		return t
+	})
+}
+
 func (m *c50o) ruleO3(w *c50execFn, readers []*c50execFn) {
 	c := m.c
 	wname := DeclName(w.fd)
-	keyOff, keyOn := wname+"/NULL with escaping disabled", wname+"/NULL with escaping enabled"
+	clsName := map[string]string{"off": "disabled", "on": "enabled"}
 	// ---- reader: words mapped to NULL, escape letters -------------------------------------------------------------
 	type word struct {
 		w   string
@@ -1313,6 +1359,8 @@ func (m *c50o) ruleO3(w *c50execFn, readers []*c50execFn) {
 	}
 	arms := map[byte]arm{}
 	escSwitch := ""
+	var escSwitchPos token.Pos
+	var escSwitchGuards []string // option-only literals, carriers rewritten to options
 	for _, r := range readers {
 		info := r.pk.TypesInfo
 		ast.Inspect(r.fd.Body, func(n ast.Node) bool {
@@ -1353,21 +1401,20 @@ func (m *c50o) ruleO3(w *c50execFn, readers []*c50execFn) {
 					return true
 				}
 				mentions := false
+				var optOnly []string
 				for _, a := range gs {
-					s := a.String()
-					for k, o := range m.carriers {
-						if o == m.nm.escapeField && strings.Contains(s, "@."+k[strings.Index(k, ".")+1:]) {
-							mentions = true
-						}
-					}
+					s := m.toOptions(a.String())
 					if strings.Contains(s, "%."+m.nm.escapeField) {
 						mentions = true
+					}
+					if m.optionOnly(s) {
+						optOnly = append(optOnly, s)
 					}
 				}
 				if !mentions {
 					return true
 				}
-				escSwitch = DeclName(r.fd)
+				escSwitch, escSwitchPos, escSwitchGuards = DeclName(r.fd), v.Pos(), optOnly
 				for _, cl := range v.Body.List {
 					cc := cl.(*ast.CaseClause)
 					text, okArm := "", true
@@ -1398,13 +1445,13 @@ func (m *c50o) ruleO3(w *c50execFn, readers []*c50execFn) {
 			return true
 		})
 	}
-	accepts := func(s, cls string) (bool, token.Pos) {
+	accepts := func(s, cls string) bool {
 		for _, wd := range words {
 			if wd.w == s && (wd.cls == "" || wd.cls == cls) {
-				return true, wd.pos
+				return true
 			}
 		}
-		return false, token.NoPos
+		return false
 	}
 	var wordList []string
 	for _, wd := range words {
@@ -1412,7 +1459,7 @@ func (m *c50o) ruleO3(w *c50execFn, readers []*c50execFn) {
 	}
 	sort.Strings(wordList)
 	wordList = compactStrings(wordList)
-	c.Notef("C50-O3 reader: words mapped to NULL %v; escape-letter switch in %s with %d letters", wordList, escSwitch, len(arms))
+	c.Notef("C50-O3 reader: words mapped to NULL %v; escape-letter switch in %s with %d letters, enabled when %v", wordList, escSwitch, len(arms), escSwitchGuards)
 
 	// ---- writer: what is emitted for a nil value -------------------------------------------------------------------
 	winfo := w.pk.TypesInfo
@@ -1433,9 +1480,10 @@ func (m *c50o) ruleO3(w *c50execFn, readers []*c50execFn) {
 		return true
 	})
 	type emission struct {
-		parts []c50Part
-		cls   string
-		pos   token.Pos
+		parts  []c50Part
+		cls    string
+		pos    token.Pos
+		guards []string // option-only literals
 	}
 	var ems []emission
 	ast.Inspect(w.fd.Body, func(n ast.Node) bool {
@@ -1448,9 +1496,13 @@ func (m *c50o) ruleO3(w *c50execFn, readers []*c50execFn) {
 			return true
 		}
 		isNull := false
+		var optOnly []string
 		for _, a := range gs {
 			if a.Kind == "set" && a.Neg && nilTerms[a.T] {
 				isNull = true
+			}
+			if s := m.toOptions(a.String()); m.optionOnly(s) {
+				optOnly = append(optOnly, s)
 			}
 		}
 		if !isNull {
@@ -1459,29 +1511,26 @@ func (m *c50o) ruleO3(w *c50execFn, readers []*c50execFn) {
 		var ps []c50Part
 		fn := Callee(winfo, call)
 		args := call.Args
-		if fn != nil && fn.Pkg() != nil && fn.Pkg().Path() == "fmt" || fn != nil && fn.Pkg() != nil && fn.Pkg().Path() == "io" {
-			args = args[1:] // the writer itself
-			if strings.HasSuffix(fn.Name(), "f") && len(args) > 0 {
-				// Fprintf: reuse the Sprintf reader by looking at the format through a synthetic call is not possible: unreadable
-				ps = []c50Part{{Unk: types.ExprString(call)}}
-				args = nil
+		if fn != nil && fn.Pkg() != nil && (fn.Pkg().Path() == "fmt" || fn.Pkg().Path() == "io") {
+			args = args[1:] // the destination
+			if strings.HasSuffix(fn.Name(), "f") {
+				ps, args = []c50Part{{Unk: types.ExprString(call)}}, nil
 			}
 		}
 		for _, a := range args {
 			ps = c50join(ps, w.f.template(a))
 		}
-		ems = append(ems, emission{ps, m.escClass(w.f, gs), call.Pos()})
+		ems = append(ems, emission{ps, m.escClass(w.f, gs), call.Pos(), optOnly})
 		return true
 	})
+	keyOf := func(cls string) string { return wname + "/NULL with escaping " + clsName[cls] }
 	if len(ems) == 0 {
-		c.Undecided("C50-O3", keyOff, w.fd.Pos(), "no emission under a `value == nil` test found in "+wname+": cannot read how NULL is written")
+		c.Undecided("C50-O3", keyOf("off"), w.fd.Pos(), "no emission under a `value == nil` test found in "+wname+": cannot read how NULL is written")
 		return
 	}
+	bare := map[string]map[string]bool{"off": {}, "on": {}} // words the writer emits for nil, per class
 	for _, cls := range []string{"off", "on"} {
-		key := keyOff
-		if cls == "on" {
-			key = keyOn
-		}
+		key := keyOf(cls)
 		var sel []emission
 		for _, e := range ems {
 			if e.cls == "" || e.cls == cls {
@@ -1489,7 +1538,7 @@ func (m *c50o) ruleO3(w *c50execFn, readers []*c50execFn) {
 			}
 		}
 		if len(sel) == 0 {
-			c.Bad("C50-O3", key, w.fd.Pos(), fmt.Sprintf("%s writes nothing for a nil value when escaping is %s: the field is read back as an empty string", wname, cls))
+			c.Bad("C50-O3", key, w.fd.Pos(), fmt.Sprintf("%s writes nothing for a nil value when escaping is %s: the field is read back as an empty string", wname, clsName[cls]))
 			continue
 		}
 		var ps []c50Part
@@ -1500,13 +1549,9 @@ func (m *c50o) ruleO3(w *c50execFn, readers []*c50execFn) {
 		shown := c50showParts(ps)
 		switch {
 		case len(ps) == 1 && ps[0].Opt == "" && ps[0].Unk == "":
-			// a bare word
-			ok, _ := accepts(ps[0].Const, cls)
-			if cls == "on" {
-				// with escaping on the word passes through the unescaping unchanged only if it contains no escape character: not decided here
-			}
-			c.Check(ok, "C50-O3", key, pos, "writer emits "+shown+", reader maps that word to NULL",
-				fmt.Sprintf("with escaping %s %s writes %s for NULL, but the reader maps only %v to NULL: NULLs are read back as strings", cls, wname, shown, wordList))
+			bare[cls][ps[0].Const] = true
+			c.Check(accepts(ps[0].Const, cls), "C50-O3", key, pos, "writer emits "+shown+", reader maps that word to NULL",
+				fmt.Sprintf("with escaping %s %s writes %s for NULL, but the reader maps only %v to NULL: NULLs are read back as strings", clsName[cls], wname, shown, wordList))
 		case cls == "on" && len(ps) == 2 && ps[0].Opt == m.nm.escapeField && ps[1].Opt == "" && ps[1].Unk == "" && len(ps[1].Const) == 1:
 			letter := ps[1].Const[0]
 			a, found := arms[letter]
@@ -1518,13 +1563,178 @@ func (m *c50o) ruleO3(w *c50execFn, readers []*c50execFn) {
 			case !a.ok:
 				c.Undecided("C50-O3", key, a.pos, fmt.Sprintf("the arm for escape letter %q in %s does not append a constant", string(letter), escSwitch))
 			default:
-				ok, _ := accepts(a.text, cls)
-				c.Check(ok, "C50-O3", key, pos, fmt.Sprintf("writer emits %s, reader arm %q yields %q which it maps to NULL", shown, string(letter), a.text),
+				c.Check(accepts(a.text, cls), "C50-O3", key, pos, fmt.Sprintf("writer emits %s, reader arm %q yields %q which it maps to NULL", shown, string(letter), a.text),
 					fmt.Sprintf("%s writes %s for NULL; the reader's arm for escape letter %q yields %q, but only %v are mapped to NULL: NULLs are read back as strings", wname, shown, string(letter), a.text, wordList))
 			}
+			// (b) the reader processes escape letters under every option condition under which the writer relies on them
+			if escSwitch != "" {
+				have := map[string]bool{}
+				for _, e := range sel {
+					for _, g := range e.guards {
+						have[g] = true
+					}
+				}
+				var missing []string
+				for _, g := range escSwitchGuards {
+					implied := have[g]
+					if !implied && strings.HasPrefix(g, "(") && strings.HasSuffix(g, ")") {
+						for _, alt := range strings.Split(g[1:len(g)-1], " | ") { // a disjunction holds if one alternative does
+							implied = implied || have[alt]
+						}
+					}
+					if !implied {
+						missing = append(missing, g)
+					}
+				}
+				sort.Strings(missing)
+				c.Check(len(missing) == 0, "C50-O3", wname+"/escape letters honoured whenever written", escSwitchPos, fmt.Sprintf("reader condition %v is implied by the writer's %v", escSwitchGuards, sel[0].guards),
+					fmt.Sprintf("%s writes %s for NULL whenever %v, but %s only interprets escape letters when additionally %s: under the remaining option combinations the NULL marker is read as data",
+						wname, shown, sel[0].guards, escSwitch, strings.Join(missing, " & ")))
+			}
 		default:
-			c.Undecided("C50-O3", key, pos, fmt.Sprintf("NULL is written as %s with escaping %s: neither a constant word nor <%s>+letter", shown, cls, m.nm.escapeField))
+			c.Undecided("C50-O3", key, pos, fmt.Sprintf("NULL is written as %s with escaping %s: neither a constant word nor <%s>+letter", shown, clsName[cls], m.nm.escapeField))
 		}
+	}
+	// (c) the reader maps to NULL only what the writer writes for NULL: any other word is the text of a string value
+	seen := map[string]bool{}
+	for _, wd := range words {
+		for _, cls := range []string{"off", "on"} {
+			if wd.cls != "" && wd.cls != cls {
+				continue
+			}
+			key := fmt.Sprintf("%s/word %s read as NULL with escaping %s", wd.fn, strconv.Quote(wd.w), clsName[cls])
+			if seen[key] {
+				continue
+			}
+			seen[key] = true
+			c.Check(bare[cls][wd.w], "C50-O3", key, wd.pos, "the writer emits that word for NULL",
+				fmt.Sprintf("%s maps the field text %s to NULL also when escaping is %s, but %s never writes that word for NULL then (it writes string values verbatim): the string value %s is read back as NULL",
+					wd.fn, strconv.Quote(wd.w), clsName[cls], wname, strconv.Quote(wd.w)))
+		}
+	}
+}
+
+// ruleO6: nodes that configure a file format are only created where their options are filled in.
+func (m *c50o) ruleO6() {
+	c := m.c
+	info0 := m.pp.TypesInfo
+	ctorOf := map[*types.Func]*types.Named{}
+	ctorName := map[*types.Named]string{m.intoT: m.nm.intoCtor, m.loadT: m.nm.loadCtor}
+	for t, name := range ctorName {
+		if fn := LookupFunc(m.pp, name); fn != nil {
+			ctorOf[fn] = t
+		}
+	}
+	if len(ctorOf) != 2 {
+		c.Undecided("C50-O6", "constructors", 0, "constructor functions not found")
+		return
+	}
+	// which constructor parameter becomes the output-file field (a node without an output file configures no format)
+	fileParam := -1
+	if m.nm.outfileField != "" {
+		if _, fd := c.P.FuncDecl(m.nm.planRel, m.nm.intoCtor); fd != nil {
+			var params []types.Object
+			for _, fl := range fd.Type.Params.List {
+				for _, id := range fl.Names {
+					params = append(params, info0.Defs[id])
+				}
+			}
+			ast.Inspect(fd.Body, func(n ast.Node) bool {
+				kv, ok := n.(*ast.KeyValueExpr)
+				if !ok {
+					return true
+				}
+				if k, ok := kv.Key.(*ast.Ident); ok && k.Name == m.nm.outfileField {
+					if v, ok := ast.Unparen(kv.Value).(*ast.Ident); ok {
+						for i, p := range params {
+							if p != nil && info0.Uses[v] == p {
+								fileParam = i
+							}
+						}
+					}
+				}
+				return true
+			})
+		}
+		if fileParam < 0 {
+			c.Undecided("C50-O6", m.nm.intoCtor+"/"+m.nm.outfileField, 0, "cannot find the constructor parameter that becomes "+m.nm.outfileField)
+			return
+		}
+	}
+	ovs, _ := m.overrides()
+	skipped := 0
+	c.P.EachModuleFuncDecl(func(pk *packages.Package, fd *ast.FuncDecl) {
+		info := pk.TypesInfo
+		self, _ := info.Defs[fd.Name].(*types.Func)
+		var parents []ast.Node
+		ast.Inspect(fd.Body, func(n ast.Node) bool {
+			if n == nil {
+				parents = parents[:len(parents)-1]
+				return true
+			}
+			parents = append(parents, n)
+			switch v := n.(type) {
+			case *ast.CompositeLit:
+				t := c50namedOf(info.TypeOf(v))
+				if t != m.intoT && t != m.loadT {
+					return true
+				}
+				if len(parents) >= 2 {
+					if u, ok := parents[len(parents)-2].(*ast.UnaryExpr); ok && u.Op == token.AND {
+						_ = u
+					}
+				}
+				key := DeclName(fd) + "/literal " + t.Obj().Name()
+				c.Check(self != nil && ctorOf[self] == t, "C50-O6", key, v.Pos(), "the constructor's literal",
+					fmt.Sprintf("%s builds a %s literal outside %s: the format options of the new node are whatever the literal says, not what the statement configured", DeclName(fd), t.Obj().Name(), ctorName[t]))
+			case *ast.CallExpr:
+				fn := Callee(info, v)
+				t := ctorOf[fn]
+				if fn == nil || t == nil {
+					return true
+				}
+				argTerm := ""
+				if t == m.intoT && fileParam >= 0 && fileParam < len(v.Args) {
+					if k, ok := info.Types[v.Args[fileParam]]; ok && k.Value != nil && k.Value.Kind() == constant.String && constant.StringVal(k.Value) == "" {
+						skipped++
+						return true // no output file: the node configures no file format
+					}
+					argTerm = "(" + m.nm.outfileField + "=" + types.ExprString(v.Args[fileParam]) + ")"
+				}
+				key := DeclName(fd) + "/" + fn.Name() + argTerm
+				// the result must be the node variable that receives the overrides of every option
+				var nodeObj types.Object
+				if len(parents) >= 2 {
+					if as, ok := parents[len(parents)-2].(*ast.AssignStmt); ok && len(as.Lhs) == 1 && len(as.Rhs) == 1 {
+						if id, ok := as.Lhs[0].(*ast.Ident); ok {
+							if nodeObj = info.Defs[id]; nodeObj == nil {
+								nodeObj = info.Uses[id]
+							}
+						}
+					}
+				}
+				got := map[string]bool{}
+				if nodeObj != nil && pk == m.bp {
+					for _, ov := range ovs {
+						if id, ok := ast.Unparen(ov.nodeX).(*ast.Ident); ok && info.Uses[id] == nodeObj {
+							got[ov.opt] = true
+						}
+					}
+				}
+				var missing []string
+				for _, o := range m.opts {
+					if !got[o] {
+						missing = append(missing, o)
+					}
+				}
+				c.Check(len(missing) == 0, "C50-O6", key, v.Pos(), "every option is overridden from the statement on the new node",
+					fmt.Sprintf("%s creates a %s with %s but never sets %v on it from the statement: the node keeps the defaults whatever FIELDS/LINES clause was given (the other statement honours the clause)", DeclName(fd), t.Obj().Name(), fn.Name(), missing))
+			}
+			return true
+		})
+	})
+	if skipped > 0 {
+		c.Notef("C50-O6: %d %s call(s) with a constant empty %s (no file format involved) not examined", skipped, m.nm.intoCtor, m.nm.outfileField)
 	}
 }
 
